@@ -467,6 +467,9 @@ func (s *Sys) exec1(toks []string) string {
 			if toks[1] == "nodes" {
 				return s.auditNodes()
 			}
+			if toks[1] == "raw" {
+				return s.auditRaw()
+			}
 			return s.auditFast()
 		}
 		return "badop"
